@@ -131,6 +131,36 @@ def explore(ck, n, np, tmath, atm, use_model=True):
                 w = float(frac_trapz(x, arr[:, j].tolist()))
                 if abs(float(res[j]) - w) > 1e-11 * (scale + 10):
                     ck.violation("other", f"integrate_column along axis {ax} of a 2-d array differs from the 1-d integral of column {j}", dict(case, axis=ax))
+        # rank 3 / 4 arrays, every axis (positive and negative): the integral of each 1-d column, in the
+        # layout of the input with that axis removed
+        if m <= 17 and it % 3 == 0:
+            rank = rng.choice([3, 3, 4])
+            other = [rng.choice([1, 2, 3]) for _ in range(rank - 1)]
+            ax = rng.randrange(rank)
+            shape = other[:ax] + [m] + other[ax:]
+            big = np.array([rng.uniform(0, 3) for _ in range(int(np.prod(shape)))]).reshape(shape)
+            big, lay = numlib.relayout(np, rng, big)
+            axarg = ax if rng.random() < 0.5 else ax - rank
+            cnd = {"fn": "integrate_column/nd", "shape": shape, "axis": axarg, "layout": lay, "x": x[:4]}
+            ck.case(key=("nd", tuple(shape), axarg, x[0]), kind=f"trapz/rank{rank}/axis{ax}")
+            try:
+                res = np.asarray(tmath.integrate_column(big, xa, axis=axarg))
+            except Exception as e:
+                ck.violation("other", f"integrate_column raised {type(e).__name__} for shape {shape}, axis {axarg}: {str(e)[:80]}", cnd)
+                res = None
+            if res is not None:
+                moved = np.moveaxis(np.asarray(big), ax, -1)
+                want = np.array([float(frac_trapz(x, col.tolist())) for col in moved.reshape(-1, m)]).reshape(moved.shape[:-1])
+                if res.shape != want.shape or np.max(np.abs(res - want)) > 1e-11 * (scale + 10):
+                    ck.violation("other", f"integrate_column along axis {axarg} of an array of shape {shape}: result shape {res.shape}, expected {want.shape}"
+                                          + ("" if res.shape != want.shape else f", max deviation {float(np.max(np.abs(res - want)))!r}"), cnd)
+                if kind == "pressure" and rank == 3:
+                    vm3 = np.asarray(big) * 0.01
+                    iw3 = np.asarray(atm.integrate_water_vapor(vm3, xa, axis=axarg))
+                    mv = np.moveaxis(vm3, ax, -1)
+                    w3 = np.array([float(atm.integrate_water_vapor(col.copy(), xa)) for col in mv.reshape(-1, m)]).reshape(mv.shape[:-1])
+                    if iw3.shape != w3.shape or np.max(np.abs(iw3 - w3)) > 1e-12 * (np.max(np.abs(w3)) + 1e-300):
+                        ck.violation("other", f"integrate_water_vapor along axis {axarg} of a rank-3 field of shape {shape} differs from the per-column results", cnd)
         # ---------------- water vapour
         if kind == "pressure" and m >= 2:
             vmr = [rng.choice([0.0, rng.uniform(0, 0.04), numlib.loguniform(rng, 1e-7, 0.04)]) for _ in range(m)]
